@@ -599,6 +599,38 @@ func TestC21(t *testing.T) {
 	})
 
 	c21StructEnum(c, t, pool)
+	{ // KDF field sweep: every iteration count 1..300 and the powers of two up to 2^16, each ID, against the reference
+		m := 0
+		its := []int{}
+		for it := 1; it <= 300; it++ {
+			its = append(its, it)
+		}
+		for e := 9; e <= 16; e++ {
+			its = append(its, 1<<uint(e)-1, 1<<uint(e), 1<<uint(e)+1)
+		}
+		for j, it := range its {
+			if !ev.Mine(j) {
+				continue
+			}
+			c21Mem = j
+			salt, bmp := detBytes("c21.ksalt", j, 8+j%9), detBytes("c21.kpw", j, 2*(j%40))
+			id, size := byte(1+j%3), []int{24, 8, 20, 5, 40}[j%5]
+			lay := placeInputs(c21Mem, salt, bmp)
+			var out []byte
+			pan := noPanic(func() { out = pkcs12.VerifPBKDF(lay.placed[0], lay.placed[1], it, id, size) })
+			if pan == nil {
+				pan = lay.check()
+			}
+			if want := refkdf.PKCS12KDFSHA1(salt, bmp, it, id, size); pan != nil || !bytes.Equal(out, want) {
+				what := fmt.Sprintf("pbkdf(salt %x, password %x, iterations %d, id %d, size %d) = %x (%v), RFC 7292 B.2 value %x", salt, bmp, it, id, size, out, pan, want)
+				c.Violation(what, "")
+				t.Fatalf("VF-VIOLATION: property=C21 %s", what)
+			}
+			c.Case(true, fmt.Sprintf("kdf-iter|%d", it), "field:kdf-iterations")
+			m++
+		}
+		c.Exhaustive("PKCS#12 KDF: every iteration count 1..300 and 2^k-1, 2^k, 2^k+1 for k = 9..16 (this shard)", m)
+	}
 
 	// Enumerated: every byte of the base files overwritten with five values (positions split across shards;
 	// quick walks the first base file, thorough all of them).
